@@ -27,7 +27,7 @@ TRUSTED = ["modelled not verified: HashMap/HashSet as finite maps, u32 debug-bui
            "which event sequences a real session emits (C22) is not part of this model"]
 RULE = ("quick: all interleavings of two fixed short sessions (finished with live traffic x failed in live mode: 210) in both start modes, "
         "600 random interleavings of 1-4 random life-cycle walks (cut anywhere), 150 perturbed (dropped/duplicated/swapped events, free metrics), "
-        "30 near the u32 boundary; thorough: 3 fixed pairs, 6000 random, 1500 perturbed, 300 boundary. non-trivial = well-formed history with >= 2 "
+        "30 near the u32 boundary; thorough: 3 fixed pairs, 3000 random, 600 perturbed, 100 boundary. non-trivial = well-formed history with >= 2 "
         "sessions in which a SessionFinished follows a SyncFinished with non-zero sync bytes (the double-count site)")
 NONTRIVIAL_FLOOR = 50
 
@@ -127,7 +127,7 @@ def _fixed_pairs(ns):
 
 def gen(tier, rng):
     quick = tier == "quick"
-    npairs, nrand, npert, nbig = (1, 600, 150, 30) if quick else (3, 6000, 1500, 300)
+    npairs, nrand, npert, nbig = (1, 600, 150, 30) if quick else (3, 3000, 600, 100)
     for ns in (True, False):
         for (a, b) in _fixed_pairs(ns)[:npairs]:
             for evs in _all_interleavings(a, b):
